@@ -11,10 +11,10 @@ cmake --build _build -j8 >/dev/null 2>&1 || { echo "CONFIRM patch$K: BUILD FAILS
 T=$(./_build/bin/bloch_tests 2>/dev/null | tail -1)
 ARG="$W/_build/bin/bloch"; ARG2=""
 if grep -qiE "source[- ]tree|source tree|<tree>|SRC=" "out/demo$K.sh"; then ARG="$W"; ARG2="$W/_build/bin/bloch"; fi
-bash "out/demo$K.sh" "$ARG" $ARG2 >/tmp/mut/demo_with.$$ 2>&1; WITH=$?
+bash "out/demo$K.sh" "$ARG" $ARG2 >/tmp/confirm_with.$$ 2>&1; WITH=$?
 git checkout -q -- .
 cmake --build _build -j8 >/dev/null 2>&1
-bash "out/demo$K.sh" "$ARG" $ARG2 >/tmp/mut/demo_without.$$ 2>&1; WITHOUT=$?
+bash "out/demo$K.sh" "$ARG" $ARG2 >/tmp/confirm_without.$$ 2>&1; WITHOUT=$?
 echo "CONFIRM $(basename $W) patch$K: tests='$T' demo_with_patch_exit=$WITH demo_without_patch_exit=$WITHOUT"
-rm -f /tmp/mut/demo_with.$$ /tmp/mut/demo_without.$$
+rm -f /tmp/confirm_with.$$ /tmp/confirm_without.$$
 [ "$WITH" != 0 ] && [ "$WITHOUT" = 0 ] && echo "$T" | grep -q "288 tests passed, 0 failed"
